@@ -20,17 +20,19 @@ type Tree struct {
 }
 
 type TreeOpts struct {
-	Pages    int
-	ObjBias  int
-	FailBias int
-	WantFP   bool
-	ErrPage  string // "" none, "valid", "failing", "missing"
-	Debug    bool
-	Funcs    map[string][]string
-	Dir      string
-	Ext      string
-	Depth    int
-	NoBig    bool
+	Pages      int
+	ObjBias    int
+	FailBias   int
+	WantFP     bool
+	ErrPage    string // "" none, "valid", "failing", "missing"
+	Debug      bool
+	Funcs      map[string][]string
+	Dir        string
+	Ext        string
+	Depth      int
+	NoBig      bool
+	ObjFail    bool
+	LayoutComp bool // the layout itself uses a component
 }
 
 func (t *Tree) path(name string) string {
@@ -54,7 +56,7 @@ func (t *Tree) FileOf(name string) int {
 
 // GenTree generates a healthy tree: a layout, two components, some pages.
 func GenTree(r *Rng, o TreeOpts) *Tree {
-	t := &Tree{Cwd: Pick(r, []string{"/srv/app", "/work", "/home/u/site"}), FPs: map[string]int{}, Sent: map[string]string{}}
+	t := &Tree{Cwd: Pick(r, []string{"/srv/app", "/work", "/home/u/site", "/srv/my app", "/home/u/café#1"}), FPs: map[string]int{}, Sent: map[string]string{}}
 	t.Cfg = Cfg{Dir: o.Dir, Ext: o.Ext, Debug: o.Debug}
 	if t.Cfg.Dir == "" {
 		t.Cfg.Dir = Pick(r, []string{"templates", "tpl/views", "t"})
@@ -79,7 +81,11 @@ func GenTree(r *Rng, o TreeOpts) *Tree {
 
 	// layout
 	lg := &Gen{R: r, Prefix: "LAY", vars: append([]gvar{}, dataVars...), ObjBias: o.ObjBias, Funcs: o.Funcs, NoBig: o.NoBig}
-	lay := "<html><head><title>@reserve(\"title\")</title></head>\n<body>" + lg.Stmts(r.Range(1, 2), 1) +
+	layComp := ""
+	if o.LayoutComp {
+		layComp = "\n@component(\"~badge\", {label: \"LAYOUT\"})\n"
+	}
+	lay := "<html><head><title>@reserve(\"title\")</title></head>\n<body>" + layComp + lg.Stmts(r.Range(1, 2), 1) +
 		"\n<main>@reserve(\"content\")</main>\n<aside>@reserve(\"side\")</aside>" + lg.Stmts(1, 0) + "</body></html>"
 	t.add("layouts/main", "layout", lay)
 	t.Layouts = []string{"layouts/main"}
@@ -94,7 +100,7 @@ func GenTree(r *Rng, o TreeOpts) *Tree {
 			name = Pick(r, []string{"admin/", "blog/posts/", "a/"}) + name
 		}
 		g := &Gen{R: r, Prefix: fmt.Sprintf("PG%d", i), vars: append([]gvar{}, dataVars...), ObjBias: o.ObjBias,
-			FailBias: o.FailBias, Comps: t.Comps, WantFP: o.WantFP, Funcs: o.Funcs, NoBig: o.NoBig}
+			FailBias: o.FailBias, Comps: t.Comps, WantFP: o.WantFP, Funcs: o.Funcs, NoBig: o.NoBig, ObjFail: o.ObjFail}
 		var src string
 		if r.Chance(50) {
 			// page with layout
